@@ -6,6 +6,7 @@ from .. import alphabet as A
 from ..core import close, relerr
 
 PROP = 'C07'
+USES_MTM = True
 RULE = ('BFS engine: for every estimator class and data type, breadth-first search from the freshly constructed object over the event menu '
         '{data=, NFFT=, sampling=, window=, lag=, detrend=, scale_by_freq=, sides=, ar_order=, ma_order=, obj(), read psd}; canonical state = '
         'complete vars(obj) (private fields, cache, flags, Range object); in every distinct state a disposable rebuild is probed: psd must equal '
